@@ -4,7 +4,7 @@ PROP = dict(
     extract_file="Extract/ExC19.v", extract_module="c19_model", driver_files=["drv_c19.ml"],
     go_tags=["c19", "voffer", "vwire"], const_groups=["wire"],
     trusted_base=COMMON_TB,
-    rule="all 49 ordered pairs of non-empty subsets of {0,1,2} (helper, first+second call on a signed ENR, both directions, framing through both ends), missing / malformed (RLP list) / empty `pv` entries against 7 own lists (empty own list included), seeded random lists over 0..255 and over 0..5 with duplicates, permutations and forced common elements, histories of 2..8 calls on ONE instance with own lists in non-ascending order ([1,0], [2,0,1], ...) mixing no-pv / pv / malformed / no-common peers and repeated peers (each step result compared, the instance's own list observed after every call), and live pairs of two real protocol instances over loopback UDP (one OFFER with uTP transfer and one large FINDCONTENT each; 4 pairings per quick run, all 40 pairings sharing 0 or 1 in thorough); one case = one line; non-trivial = both lists non-empty; distinct by sha1 of the line",
+    rule="all 49 ordered pairs of non-empty subsets of {0,1,2} (helper, first+second call on a signed ENR, both directions, framing through both ends), missing / malformed (RLP list) / empty `pv` entries against 7 own lists (empty own list included), seeded random lists over 0..255 and over 0..5 with duplicates, permutations and forced common elements, histories of 2..8 calls on ONE instance with own lists in non-ascending order ([1,0], [2,0,1], ...) mixing no-pv / pv / malformed / no-common peers and repeated peers (each step result compared, the instance's own list observed after every call), which ACCEPT encoding a reply is in (`accenc`: a full instance answers a real OFFER through handleTalkRequest while its routing table holds an OLDER record of the peer advertising other versions than the record of the request, with and without a free inbound slot; the encoding must be the one negotiated from the request's record: monitor accept-encoded-in-wrong-version), and live pairs of two real protocol instances over loopback UDP (one OFFER with uTP transfer and one large FINDCONTENT each; 4 pairings per quick run, all 40 pairings sharing 0 or 1 in thorough); one case = one line; non-trivial = both lists non-empty; distinct by sha1 of the line",
     nontrivial=lambda l: " - " not in l.split(" | ")[0] + " ",
     modelled=["expirable versions cache modelled as an arbitrary partial map argument (expiry = any smaller map); cache keyed by node identity",
               "enode.Node.Load of the `pv` entry modelled as a three-way case (missing / undecodable / byte string)"],
